@@ -1,1 +1,22 @@
-fn main(){}
+//! tools: the explorers that do not need compiled generated parsers.
+//!   tools c11|c12|c15|c16|c17|c18 <tier> [args]
+//! Output: JSON lines like a harness shard (viol / stats / machinery).
+
+mod c11;
+mod util;
+
+fn main() {
+    let args: Vec<String> = std::env::args().collect();
+    if args.len() < 3 {
+        eprintln!("usage: tools <prop> <tier> [args]");
+        std::process::exit(2);
+    }
+    let tier = refpeg::corpus::Tier::parse(&args[2]);
+    match args[1].as_str() {
+        "c11" => c11::run(tier),
+        other => {
+            eprintln!("unknown tool {other}");
+            std::process::exit(2);
+        }
+    }
+}
